@@ -54,7 +54,7 @@ PROPS = {
     "C16": P("asan", "exploration", (60000, 25), (2500000, 420),
              "documents with distinct keys over an alphabet containing / ~ 0 1 - and the empty key; patches of 1-8 operations are assembled step by step against the evolving reference state (valid pointers incl. ~0 ~1 and '-', deliberate failures: missing member, index out of range, failed test, missing op/path/value/from, move into own child) and applied with cJSONUtils_ApplyPatchesCaseSensitive; status must be 0 exactly when the reference RFC 6902 evaluator succeeds and then the documents must be equal (objects as sets). patch_corrupt faults (type swaps, member deletion, number in 'from', non-array root, odd pointers) are judged for robustness only: no crash, well-formed document, balanced ledger. Distinct by (patch text, document text) for patches the reference accepts.",
              "(patch, document) pairs that the reference evaluator applies successfully",
-             [SIM_ALLOC, SIM_IN, SIM_BORROW], probes=["patch_succeeded", "patch_failed_as_predicted", "patch_corrupt_survived", "patch_built_through_constructors_with_lent_texts", "patch_move_target_exists_only_after_removal", "patch_pointer_without_any_slash", "patch_pointer_ends_in_a_lone_tilde"]),
+             [SIM_ALLOC, SIM_IN, SIM_BORROW], probes=["patch_succeeded", "patch_failed_as_predicted", "patch_corrupt_survived", "patch_built_through_constructors_with_lent_texts", "patch_move_target_exists_only_after_removal", "patch_pointer_without_any_slash", "patch_pointer_ends_in_a_lone_tilde", "patch_test_aimed_at_a_reference_node", "patch_test_aimed_at_a_reference_to_a_wide_object"]),
     "C17": P("asan", "exploration", (80000, 25), (2500000, 420),
              "pairs (from, to): independent documents or 'to' derived from 'from' by 1-6 edits, keys including / and ~; cJSONUtils_GeneratePatchesCaseSensitive must return an array of well-formed operations that, applied to a copy of 'from' by the library and to the model by the reference evaluator, yields 'to'; empty iff equal; both inputs must keep exactly their nodes (order free) and stay well-formed, and 3-15 follow-up edits on them are judged against the list/map model. Distinct by (patch text, from text) for non-empty patches.",
              "(generated patch, from-document) pairs with a non-empty patch",
@@ -64,9 +64,9 @@ PROPS = {
              "(target, patch) and (from, to) pairs with a non-trivial patch",
              [SIM_ALLOC, SIM_IN], probes=["merge_null_member", "generated_merge_patch_applied_to_from_itself_then_again", "document_rebuilt_through_constructors"]),
     "C19": P("asan", "exploration", (120000, 25), (4000000, 420),
-             "objects of 0-40 members with duplicate, case-variant, empty and high-byte keys are sorted (both variants); the result must be the same nodes in non-decreasing key order, a second sort must keep it (with all-distinct keys: the very same order), the structural walk must pass (in particular first->prev == last), printing must equal a freshly built twin, and every following append/insert/detach/replace/delete is judged against the list/map model. Distinct by model-state hash.",
+             "objects of 0-40 members with duplicate, case-variant, empty and high-byte keys are sorted (both variants); the result must be the same nodes in non-decreasing key order, a second sort must keep it (with all-distinct keys: the very same order), the structural walk must pass (in particular first->prev == last), printing must equal a freshly built twin, and every following append/insert/detach/replace/delete is judged against the list/map model. A third of the histories reach the sort through the other utilities (patch test, patch and merge-patch generation); a quarter of the patch-test histories test a document that sees (often wide, 33+ member) containers of a second tree through reference nodes, and the owner's tree is walked after the call. Distinct by model-state hash.",
              "hash of the model state after a non-trivial step (sort of >= 3 members or a judged mutation of a sorted object)",
-             [SIM_ALLOC], probes=["sorted", "sort_duplicate_keys"]),
+             [SIM_ALLOC], probes=["sorted", "sort_duplicate_keys", "patch_test_aimed_at_a_reference_node", "patch_test_aimed_at_a_reference_to_a_wide_object"]),
 
     "C08": P("asan", "fault_enumeration", (14000, 30), (400000, 480),
              "a scenario is a fault-free prefix history (2-25 steps), one target call (parse entry points, print variants, every create*, bulk constructors, Add*ToObject helpers, AddItemToObject, AddItemReferenceTo*, Duplicate, ReplaceItemInObject*, SetValuestring growing) and a fault-free suffix; the target is first run fault-free to count its n allocation requests, then the scenario is replayed once per k in 1..n with request k refused (custom malloc, or default malloc/realloc). Oracles: the call completes normally or returns its documented failure value; on failure the ledger live set equals the one before the call, every pre-existing root passes the structural walk and prints the same two texts; the suffix runs without crash and the final ledger is balanced. Distinct by (target call kind, k, allocator side, outcome); non-trivial when k >= 2.",
